@@ -4,9 +4,29 @@
    with permissive_mode = false; conforms / retains / c04_ok = the independent oracle of C04/Spec_C04.v. *)
 From Coq Require Import NArith ZArith List Bool.
 From F8 Require Import Codec.Bytes Codec.Meta Codec.Extract Codec.Decode Codec.Example
-                       C04.Spec_C04 C04.Strict C04.Tokens C04.Example04 C04.WitnessProofs.
+                       C04.Spec_C04 C04.Strict C04.Tokens C04.Example04 C04.Sound C04.WitnessProofs C04.SoundProofs.
 Import ListNotations.
 Local Open Scope N_scope.
+
+(* Soundness of acceptance, for EVERY byte string (no hypothesis on the input beyond "bytes are
+   bytes" and the size of an unsigned int): whenever the strict decoder returns a message,
+     - the checksum is right: the input ends in 10=ccc| and ccc, as fast_atoi reads it, is the sum
+       of all bytes before "10=" modulo 256 (chk_as_read; through C07's theorem on calc_chksum);
+     - msg_sound: header, body and trailer objects were decoded against the header table, the table
+       of the message type named by 35 and the trailer table; in each of them no tag occurs twice
+       -- except data-typed tags, which the Length/data pairing adds without the duplicate test
+       (finding C04-length-field-pairing) --, a tag is in the object iff its present bit is set and
+       no mandatory trait lacks the bit; every element of every repeating group at every depth
+       has no repeated tag, all its mandatory fields, and holds at arrival index 1 a field of
+       schema position 1 (it began with the group's first field).
+   What is NOT claimed, because it is false (c04_retains_refuted): that the object accounts for
+   every token of the input. *)
+Theorem c04_accept_sound_partial : forall c bytes m,
+  wf_ctx c = true -> bytes_small bytes = true -> lenN bytes < 2147483648 ->
+  strict_factory c bytes = Ok m ->
+  chk_as_read bytes /\ msg_sound c m.
+Proof. exact c04_accept_sound_lemma. Qed.
+Print Assumptions c04_accept_sound_partial.
 
 (* Retention fails, three independent witnesses on the schema ex4_ctx (each accepted by the model
    with a correct checksum, each losing or renaming a token; re-confirmed on the real decoder by
